@@ -60,6 +60,7 @@ fn replay(id: &str, file: &str) {
     let v: Value = serde_json::from_slice(&std::fs::read(file).expect("MACHINERY: read replay file")).expect("MACHINERY: parse replay file");
     let path: Vec<usize> = v["path"].as_array().unwrap().iter().map(|x| x.as_u64().unwrap() as usize).collect();
     let tier = v["tier"].as_str().unwrap_or("quick").to_string();
+    *engine::REPLAY_TRAIL.lock().unwrap() = v["trail"].as_array().into_iter().flatten().filter_map(|t| t.as_str().map(|s| s.to_string())).collect();
     let mut ctx = Ctx::new(id, &tier, (0, 1), seed());
     println!("replaying {} ({}), expected signature: {}", file, tier, v["signature"]);
     checks::replay(id, &mut ctx, &path);
